@@ -90,7 +90,7 @@ SHAPES = ["walk", "rising", "falling", "constant", "vshape", "latepeak", "twosca
 
 
 def gen_series(rng, shape, n, sigma=0.05):
-    x = rng.choice([1.0, 100.0, 20000.0, 0.003, 3.7e6]) * (0.5 + rng.random())
+    x = rng.choice([1.0, 100.0, 20000.0, 0.003, 3.7e6, 1.0, 100.0, 2e-9, 5e-14, 8e11]) * (0.5 + rng.random())
     out = []
     if shape == "walk":
         for _ in range(n):
@@ -285,9 +285,12 @@ def check_mdd(ctx, case, batch):
                 ctx.violate("max_draw_down.not-relative-max",
                             f"max_draw_down({xs[:8]}) = {val!r}, largest relative decline is {float(spec)!r} (x[{si}]={xs[si]} -> x[{sj}]={xs[sj]})", case)
             ctx.dev(Fraction(val), spec)
-            for c in (2.0, 0.001, 12345.678):
+            # any positive factor; a power of two rescales every float exactly, so the result must not move by a single bit — from 2^-100
+            # (values of 1e-30: an account quoted in a very dear token) to 2^100
+            k1, k2 = ctx.rng.randint(-100, -10), ctx.rng.randint(10, 100)
+            for c in (2.0, 0.001, 12345.678, 2.0 ** k1, 2.0 ** k2, 1e-10):
                 oc2, v2 = call(max_draw_down, pd.Series([v * c for v in xs], dtype=float))
-                if oc2 != "ok" or not close(v2, val, 1e-300) or (c == 2.0 and v2 != val):
+                if oc2 != "ok" or not close(v2, val, 1e-300) or (c in (2.0, 2.0 ** k1, 2.0 ** k2) and v2 != val):
                     ctx.violate("max_draw_down.scale", f"max_draw_down changes from {val!r} to {v2!r} when the series {xs[:8]} is multiplied by {c}", case)
         g, h, l = _withdraw_with_high_low(list(xs))
         hl = (h, l)
